@@ -18,3 +18,14 @@ MUTANTS = [
 TWINS = [
     T("counter-renamed-epub", X + "epub_extractor.py", "            data = ctx.read_bytes(href)\n            # Count only images that could be read, so numbers stay gap-free\n            image_counter += 1\n", "            data = ctx.read_bytes(href)\n            image_counter = image_counter + 0\n            image_counter += 1\n"),
 ]
+
+# --- seeded changes kept under /verif/seeded (sub-agents saw only the property text); each must be reported by the named rule
+import os as _os
+from sa.selftest.harness import P as _P
+_SEEDS = _os.path.join(_os.path.dirname(_os.path.dirname(_os.path.dirname(_os.path.abspath(__file__)))), "seeded")
+SEEDED = [
+    ("C14-1", "C14-PAIR"),
+    ("C14-2", "C14-REF"),
+    ("C14-3", "C14-JPEG"),
+]
+MUTANTS = list(MUTANTS) + [_P("seed-" + sid, _os.path.join(_SEEDS, sid, "patch.diff"), rule) for sid, rule in SEEDED if _os.path.exists(_os.path.join(_SEEDS, sid, "patch.diff"))]
